@@ -122,6 +122,9 @@ def setup(case):
         else:
             raise H.ScriptExhausted()
         r.consumed += 1
+        if r.consumed > max(case['budget_ms'], 0) + 5:
+            # C43_terminates: budget-many polls always suffice (every poll costs >= 1 ms)
+            raise RuntimeError('harness: runaway wait loop (more polls than milliseconds of budget)')
         r.events.append(('q', H.to_ms(timeout)))
         set_hosts(cl, p['hosts'])
         resp = p['resp']
